@@ -12,7 +12,8 @@ def c09(tier):
                       "msize is the default 65536 (both ends are the library's own); sizes around msize-11 / msize-23 and 1 MiB",
                       "concurrency: handlers answer at once; pipe capacity 1 byte (unbuffered) or 1 MiB"]
     runs = []
-    for cfg, expect in (("Pipeline_asis_ok.cfg", None), ("Pipeline_asis_dl.cfg", "NoDeadlock"), ("Pipeline_fixed.cfg", None)) + \
+    for cfg, expect in (("Pipeline_asis_ok.cfg", None), ("Pipeline_asis_dl.cfg", "NoDeadlock"), ("Pipeline_fixed.cfg", None),
+                        ("Pipeline_barrier_ok.cfg", None), ("Pipeline_barrier_cap.cfg", "NoDeadlock")) + \
                        (() if q else (("Pipeline_asis_k1_ok.cfg", None), ("Pipeline_asis_k1_dl.cfg", "NoDeadlock"))):
         r = tlc("stack", "Pipeline", cfg, workers=16, timeout=1500)
         if expect is None and not r.ok:
@@ -27,8 +28,19 @@ def c09(tier):
     if not r2.ok:
         raise vlib.Inconclusive("CallMap failed:\n" + r2.out[-2000:])
     runs.append({"module": "CallMap", "vectors_emitted": r2.nprinted})
+    # the conn's write-deadline register over time
+    for cfg, expect in (("ConnDeadline.cfg", None), ("ConnDeadline_norefresh.cfg", "EveryWriteGoesThrough")):
+        r = tlc("stack", "ConnDeadline", cfg, workers=1, timeout=300)
+        if (expect is None and not r.ok) or (expect is not None and r.violation != expect):
+            raise vlib.Inconclusive("ConnDeadline %s: expected %s, TLC says %s\n%s" % (cfg, expect or "no violation", r.violation, r.out[-1500:]))
+        runs.append({"cfg": cfg, "expected_violation": expect, **r.summary()})
+    dp = os.path.join(OUT, "conndl-%d.ndjson" % os.getpid())
+    r3 = tlc("stack", "ConnDeadlineVectors", "ConnDeadlineVectors.cfg", workers=1, timeout=300, printed_to=dp)
+    if not r3.ok:
+        raise vlib.Inconclusive("ConnDeadlineVectors failed:\n" + r3.out[-2000:])
+    runs.append({"module": "ConnDeadlineVectors", "vectors_emitted": r3.nprinted})
     try:
-        doc = harness(["stack", "-vectors", vp, "-rounds", "50" if q else "400"] + ([] if q else ["-logging"]), timeout=2400)
+        doc = harness(["stack", "-vectors", vp, "-deadlines", dp, "-rounds", "50" if q else "400"] + ([] if q else ["-logging"]), timeout=2400)
         hv = doc.get("violations") or []
         if any(v["tag"] == "harness" for v in hv):
             raise vlib.Inconclusive("stack harness problem: %s" % [v for v in hv if v["tag"] == "harness"][0])
@@ -43,9 +55,11 @@ def c09(tier):
                 ck.violation("data-race", "the Go race detector reports %d data race(s) in the client/server stack\n%s" % (races, first), {"race": first})
     finally:
         os.unlink(vp)
+        os.unlink(dp)
     ck.add_cov(traces_validated_against_impl=int(doc.get("evaluations", 0)),
                rule="sequential: every CallMap vector (11 methods x boundary arguments x S results/errors; read/write sizes around msize-11/msize-23, offsets up "
                     "to 2^64-1) through CSession <-> ServeConn(SSession(S)); concurrent: 2..32 callers x 50/400 calls each over a 1 MiB pipe and 4 callers "
                     "over an unbuffered pipe must each get the result derived from their own fid; the Pipeline counterexample (16 callers, unbuffered "
-                    "pipe) is replayed and, if the calls only end by their deadline, reported with the parked loops")
+                    "pipe) is replayed and, if the calls only end by their deadline, reported with the parked loops; timed: every call sequence of "
+                    "ConnDeadlineVectors (idle times x per-call context deadlines, 1..3 calls) on a fresh pair each")
     return ck.finish()
